@@ -744,11 +744,11 @@ pub fn c06_changed(out: &RunOut, it: &IterHist) -> Option<Violation> {
 }
 
 /// header-omitted inputs are never flagged as changed
-pub fn c06_omitted_never_changed(case: &Case, out: &RunOut, it: &IterHist) -> Option<Violation> {
+pub fn c06_omitted_never_changed(_case: &Case, out: &RunOut, it: &IterHist) -> Option<Violation> {
     for (k, c) in it.calls.iter().enumerate() {
         for i in &c.inputs {
             let Some(sig) = out.sigs.get(i.sig as usize) else { continue };
-            if !case.program.header.contains(&sig.name) && i.changed {
+            if !out.header.contains(&sig.name) && i.changed {
                 return v(
                     "C06.changed",
                     format!(
